@@ -144,6 +144,7 @@ func (w *World) verifyOnce(fn *ssa.Function, ct *Contract, opts VerifyOpts, cuts
 		args[i] = e.symVal(st, p.Type(), name, 0)
 		vars[name] = sv{V: args[i], T: p.Type()}
 	}
+	bindPositional(vars, fn, args)
 	var pkg *types.Package
 	if fn.Pkg != nil {
 		pkg = fn.Pkg.Pkg
@@ -250,6 +251,7 @@ func (e *Exec) applyContract(st *State, fr *Frame, fn *ssa.Function, ct *Contrac
 	for i, p := range fn.Params {
 		env.vars[paramName(p, i)] = sv{V: args[i], T: p.Type()}
 	}
+	bindPositional(env.vars, fn, args)
 	if len(ct.Ghosts) > 0 {
 		e.bail("contract of %s has ghost variables; not usable at call sites yet", ct.Func)
 	}
@@ -646,4 +648,22 @@ func (w *World) VerifyTable(ct *Contract, pkg *ssa.Package) (res *FnResult) {
 	res.Notes = append(res.Notes, fmt.Sprintf("%d entries evaluated from the package initialiser", len(ms.Keys)))
 	res.Obls = e.Obls
 	return res
+}
+
+// bindPositional adds the aliases recv / arg1, arg2, ... (used by interface contracts, whose
+// implementations name their parameters differently).
+func bindPositional(vars map[string]sv, fn *ssa.Function, args []Val) {
+	off := 0
+	if fn.Signature.Recv() != nil && len(fn.Params) > 0 {
+		if _, taken := vars["recv"]; !taken {
+			vars["recv"] = sv{V: args[0], T: fn.Params[0].Type()}
+		}
+		off = 1
+	}
+	for i := off; i < len(fn.Params) && i < len(args); i++ {
+		n := fmt.Sprintf("arg%d", i-off+1)
+		if _, taken := vars[n]; !taken {
+			vars[n] = sv{V: args[i], T: fn.Params[i].Type()}
+		}
+	}
 }
